@@ -58,8 +58,11 @@ def iou_rules(ctx):
         if b is None:
             continue
         ras = list(result_assignments(b))
-        somes = [(bb, p) for bb, k, p in ras if k == 'expr' and p.kind == 'agg' and p.name.endswith('Some')]
-        nones = [(bb, p) for bb, k, p in ras if k == 'expr' and p.kind == 'agg' and p.name.endswith('None')]
+        # the block that matters is the one that BUILDS the Some / None (it may be moved into the result later)
+        somes = [(p.site[0] if p.site else bb, p) for bb, k, p in ras
+                 if k == 'expr' and p.kind == 'agg' and p.name.endswith('Some')]
+        nones = [(p.site[0] if p.site else bb, p) for bb, k, p in ras
+                 if k == 'expr' and p.kind == 'agg' and p.name.endswith('None')]
         if not somes:
             ctx.fail('R08.1', b, kind + ':shape', 'ANCHOR-MISSING: no `Some(..)` result found')
             continue
@@ -180,7 +183,15 @@ def intersection_rule(ctx, R):
                   'gen_vertices() is guarded by something else than `cached vertices of the same box are none` '
                   '(inverted test or test on the other box): the clip can run on a missing or foreign polygon', c.ln)
     n += 1
-    ctx.check(len(gens) == 2, R, b, 'both-operands-get-vertices', str(len(gens)),
+    both = len(gens) == 2
+    if len(gens) == 1:
+        # `for bx in [&mut l, &mut r] { .. bx.gen_vertices() .. }`: one call site run for both working copies
+        from lib import iteration_context
+        for it in iteration_context(ctx.F, b, b, gens[0].bb):
+            arr = [x for x in it.walk() if x.kind == 'agg' and x.name == 'array' and len(x.args) == 2]
+            if arr and len({repr(roots(a)) for a in arr[0].args}) == 2:
+                both = True
+    ctx.check(both, R, b, 'both-operands-get-vertices', str(len(gens)),
               'expected one gen_vertices() per operand, found %d' % len(gens))
     # the working copies are clones, and a clone never carries a (possibly stale) cache of the caller's box
     C14.clone_rule(ctx, R)
@@ -211,6 +222,29 @@ def clip_predicate_rule(ctx, R):
             ctx.check(ok, R, cb, 'clip-predicate-is-a-sign-test:' + cb.npath.rsplit('::', 1)[-1], repr(e)[:120],
                       'the clipping predicate %s decides by %r: expected a comparison with the constant 0 (a tolerance '
                       'reports an intersection for boxes that do not overlap)' % (cb.npath, e))
+    # the same test written in place (or spliced in from a helper of a new private type): every comparison of the
+    # clipper between a cross-product-like quantity (f64 arithmetic over coordinates) and a constant
+    eb = ExprBuilder(b)
+    seen_cmp = set()
+    for i in sorted(b.live_blocks()):
+        for si, s_ in enumerate(b.blocks[i]['st']):
+            if s_['k'] != 'assign' or s_['rv']['k'] != 'bin' or s_['rv']['op'] not in ('Le', 'Lt', 'Ge', 'Gt'):
+                continue
+            e = eb._rvalue(s_['rv'], (), 0, (i, si))
+            sides = [(e.args[0], e.args[1]), (e.args[1], e.args[0])]
+            for q, c in sides:
+                if c.kind == 'const' and 'f64' in str(c.const.get('ty', '')) and any(
+                        x.kind == 'bin' and x.name == 'Sub' for x in q.walk()) and any(
+                        x.kind == 'bin' and x.name == 'Mul' for x in q.walk()):
+                    key = repr(e)
+                    if key in seen_cmp:
+                        continue
+                    seen_cmp.add(key)
+                    n += 1
+                    ctx.check(c.const_value() in ('0.0', '0', '-0.0'), R, b, 'clip-predicate-is-a-sign-test:inline',
+                              repr(e)[:120], 'the clipper compares its edge cross product with %r (expected the '
+                              'constant 0: a tolerance reports an intersection for boxes that do not overlap)' % c,
+                              s_['ln'])
     return n
 
 
